@@ -164,14 +164,14 @@ class TemplateEval:
             elif t[0][0] == 'lit':
                 t[0] = ('lit', t[0][1][1:])
             else:
-                raise Unresolved('string template: cannot drop the first character of a symbol')
+                t[0] = ('sym', t[0][1] + '[1:]')     # a symbol that lost its first character: no longer the symbol
         if hi == -1:
             if not t:
                 pass
             elif t[-1][0] == 'lit' and t[-1][1]:
                 t[-1] = ('lit', t[-1][1][:-1])
             else:
-                raise Unresolved('string template: cannot drop the last character of a symbol')
+                t[-1] = ('sym', t[-1][1] + '[:-1]')
         return norm(t)
 
 
